@@ -126,6 +126,237 @@ func restartFailure(in *inst, rr *runResult) string {
 	return fmt.Sprintf("exit-%d", rr.exit)
 }
 
+// observer: a client asked after the kill. tag "" = a fresh client (cold
+// cache); otherwise a client that lived through the run and had performed a
+// sequence of reads while the run was alive ("long-lived-client(after=…)").
+type observer struct {
+	tag string
+	cli client.Client
+}
+
+// killed: what one killed run left behind, and where the kill fell.
+type killed struct {
+	in    *inst
+	skip  map[string]bool
+	phase string
+	pos   string // phase + "/at=" + call class: the crash-point class, tail of every signature
+	where string // the kill point in words
+	own   *runRecord
+	surv  string
+	m1    markers
+}
+
+func (o observer) at(pos string) string {
+	if o.tag == "" {
+		return pos
+	}
+	return o.tag + "/" + pos
+}
+
+func (o observer) who() string {
+	if o.tag == "" {
+		return "a fresh client"
+	}
+	return "the " + o.tag
+}
+
+// survey reads what the killed run left behind (and puts its markers aside).
+func survey(in *inst, skip map[string]bool) (*runRecord, string, markers, error) {
+	var own *runRecord
+	if runs := in.runsExcept(skip); len(runs) > 1 {
+		return nil, "", nil, fmt.Errorf("more than one new run in the history directory: %v", runs)
+	} else if len(runs) == 1 {
+		own = runs[0]
+	}
+	surv := in.stateSummary(skip)
+	return own, surv, in.takeMarkers(), nil
+}
+
+// postMortem: everything the property says about a DAG whose run was killed,
+// asked of every observer: what is reported now; the daemon's job object; a
+// second start of the same file; the job object again.
+func (hn *harness) postMortem(def *dagDef, kd *killed, obs []observer) (fs []finding, summary map[string]any, err error) {
+	in, pos, own, m1 := kd.in, kd.pos, kd.own, kd.m1
+	t1 := def.truth(m1)
+	var ownLast *model.Status
+	if own != nil {
+		ownLast = own.last()
+	}
+	finalWritten := isFinal(ownLast)
+	add := func(kind, format string, a ...any) {
+		fs = append(fs, finding{kind, fmt.Sprintf(format, a...)})
+	}
+	d, err := dag.LoadMetadata(in.dagFile)
+	if err != nil {
+		return nil, nil, fmt.Errorf("cannot load %s: %v", in.dagFile, err)
+	}
+	summary = map[string]any{}
+	for _, o := range obs {
+		p := o.at(pos)
+		cli := o.cli
+		// 1. what is reported now
+		var st *model.Status
+		var serr error
+		if pn := safely("GetLatestStatus", func() { st, serr = cli.GetLatestStatus(d) }); pn != "" {
+			add("after-kill/latest-status-error/panic/"+p, "%s: %s", o.who(), pn)
+		} else if serr != nil {
+			add("after-kill/latest-status-error/"+p, "asked of %s, GetLatestStatus returns error %q (status object: %s)", o.who(), serr, describe(st))
+		} else if st == nil {
+			add("after-kill/latest-status-error/"+p, "asked of %s, GetLatestStatus returns neither a status nor an error", o.who())
+		} else {
+			mine := own != nil && strings.HasPrefix(st.RequestID, own.ID8)
+			switch {
+			case st.Status.String() == stRunning:
+				add("after-kill/reported-running/"+p, "the process is dead; asked of %s, GetLatestStatus reports the DAG running: %s", o.who(), describe(st))
+			case mine && st.Status.String() == stFinished && !(finalWritten && ownLast.Status.String() == stFinished && t1.Complete && t1.Run == stFinished):
+				// steps-missing: part of the DAG never ran; all-steps-done: every step and handler ran to its
+				// end, the kill fell before the agent recorded the end of the run
+				sub := "steps-missing"
+				if t1.Complete && t1.Run == stFinished {
+					sub = "all-steps-done"
+				}
+				add("after-kill/reported-succeeded-but-cut-short/"+sub+"/"+p, "asked of %s, the killed run is reported as succeeded: %s; final status line (the one written after the scheduler returned, carrying FinishedAt) written: %v; markers {%s} (all steps and handlers ran to their end: %v)", o.who(), describe(st), finalWritten, m1, t1.Complete)
+			case ownLast != nil && !mine:
+				add("after-kill/killed-run-hidden/"+p, "the killed run %q had recorded %s, but the status reported to %s is not about it: %s", own.ID8, own, o.who(), describe(st))
+			case finalWritten && st.Status != ownLast.Status:
+				add("after-kill/final-status-not-reported/"+p, "the killed run had written its final status line (%s); reported to %s: %s", describe(ownLast), o.who(), describe(st))
+			}
+			if finalWritten && mine && st.Status == ownLast.Status {
+				// the final line is there and is reported: it must then equal the markers, as after any run
+				for _, f := range checkFinal(def, st, nil, m1, own.ID8) {
+					add(strings.Replace(f.Kind, "final/", "after-kill/final-", 1)+"/"+p, "%s", f.Detail)
+				}
+			}
+		}
+		summary["reported"+o.tag] = describe(st)
+		// the same through the path the web UI takes, the socket probe, the run looked up by its id;
+		// the history reads are made as well (they go through the same file cache)
+		var ds *client.DAGStatus
+		if pn := safely("GetStatus", func() { ds, _ = cli.GetStatus(def.Name) }); pn != "" {
+			add("after-kill/latest-status-error/panic/"+p, "%s: %s", o.who(), pn)
+		} else if ds != nil && ds.Status != nil && ds.Status.Status.String() == stRunning {
+			add("after-kill/reported-running/"+p, "asked of %s, client.GetStatus(%q) reports the DAG running: %s", o.who(), def.Name, describe(ds.Status))
+		}
+		var cur *model.Status
+		if pn := safely("GetCurrentStatus", func() { cur, _ = cli.GetCurrentStatus(d) }); pn != "" {
+			add("after-kill/latest-status-error/panic/"+p, "%s: %s", o.who(), pn)
+		} else if cur != nil && cur.Status.String() == stRunning {
+			add("after-kill/reported-running/"+p, "asked of %s, client.GetCurrentStatus reports the DAG running although its process is dead: %s", o.who(), describe(cur))
+		}
+		if ownLast != nil {
+			var byID *model.Status
+			if pn := safely("GetStatusByRequestID", func() { byID, _ = cli.GetStatusByRequestID(d, ownLast.RequestID) }); pn != "" {
+				add("after-kill/latest-status-error/panic/"+p, "%s: %s", o.who(), pn)
+			} else if byID != nil && byID.Status.String() == stRunning {
+				add("after-kill/reported-running/"+p, "asked of %s, client.GetStatusByRequestID(%q) reports the killed run as running: %s", o.who(), ownLast.RequestID, describe(byID))
+			}
+		}
+		for _, n := range []int{1, 1000} {
+			if pn := safely("GetRecentHistory", func() { _ = cli.GetRecentHistory(d, n) }); pn != "" {
+				add("after-kill/latest-status-error/panic/"+p, "%s: %s", o.who(), pn)
+			}
+		}
+		// 2. the daemon's job object, over this observer's data stores, on what the kill left behind
+		jf, jc := jobCheck(in, cli, d, "right after the kill, over the data stores of "+o.who())
+		for _, f := range jf {
+			add(f.Kind+"/"+p, "%s", f.Detail)
+		}
+		summary["job_after_kill"+o.tag] = jc
+	}
+
+	// 3. the DAG can be started again
+	skip2 := map[string]bool{}
+	for k := range kd.skip {
+		skip2[k] = true
+	}
+	if own != nil {
+		skip2[own.ID8] = true
+	}
+	var rr2 *runResult
+	var m2 markers
+	hung := false
+	for attempt := 0; attempt < 4; attempt++ {
+		rr2, hung, err = in.runPlain(hn.tl)
+		if err != nil {
+			return nil, nil, err
+		}
+		if hung {
+			continue // once more: only a hang that repeats is reported
+		}
+		m2 = readMarkers(in.markers)
+		if isCrashAtEnd(rr2) && def.truth(m2).Complete {
+			// The second run did everything and then crashed at its very end. That has nothing to do
+			// with the kill before it: it is reported as what it is, and the restart is tried again.
+			add("final/agent-crash-at-end-of-run", "an untraced `start -q` of DAG %s ran all its steps (markers {%s}) and then exits 2; stderr: %s", def.Name, m2, vlib.Short(rr2.stderr, 1500))
+			for _, r := range in.runsExcept(skip2) {
+				skip2[r.ID8] = true
+			}
+			_ = in.takeMarkers()
+			continue
+		}
+		break
+	}
+	summary["restart_exit"] = rr2.exit
+	summary["restart_markers"] = m2.String()
+	restarted := false
+	var run2 *runRecord
+	switch {
+	case hung:
+		add("after-kill/cannot-restart/hang/"+pos, "a second `start -q` of the same file did not end within %s (repeatedly)", watchdog)
+	case rr2.exit != def.expectExit() || !def.truth(m2).Complete:
+		add("after-kill/cannot-restart/"+restartFailure(in, rr2)+"/"+pos, "a second `start -q` of the same file exits %d (a run to completion exits %d); markers of that run {%s}; stderr %s", rr2.exit, def.expectExit(), m2, vlib.Short(rr2.stderr, 400))
+	default:
+		runs := in.runsExcept(skip2)
+		if len(runs) != 1 {
+			add("after-kill/restart-not-recorded/"+pos, "the second run ran to completion but the history directory holds %d new runs: %v", len(runs), runs)
+		} else {
+			restarted, run2 = true, runs[0]
+		}
+	}
+	for _, o := range obs {
+		p := o.at(pos)
+		if restarted {
+			var st2 *model.Status
+			var err2 error
+			if pn := safely("GetLatestStatus", func() { st2, err2 = o.cli.GetLatestStatus(d) }); pn != "" {
+				add("after-kill/latest-status-error/panic/"+p, "after the restart, %s: %s", o.who(), pn)
+			} else {
+				for _, f := range checkFinal(def, st2, err2, m2, run2.ID8) {
+					add(strings.Replace(f.Kind, "final/", "after-kill/restart-", 1)+"/"+p, "after the second run (to completion, exit %d), asked of %s: %s", rr2.exit, o.who(), f.Detail)
+				}
+			}
+		}
+		// 4. and the daemon keeps handling it
+		jf, jc := jobCheck(in, o.cli, d, "after the restart, over the data stores of "+o.who())
+		for _, f := range jf {
+			add(f.Kind+"/"+p, "%s", f.Detail)
+		}
+		summary["job_after_restart"+o.tag] = jc
+	}
+	return fs, summary, nil
+}
+
+// report turns the findings of one kill member into violations.
+func (hn *harness) report(def *dagDef, mb member, kd *killed, fs []finding, verbose bool) {
+	seen := map[string]bool{}
+	for _, f := range fs {
+		sig := "C08/" + f.Kind
+		if verbose {
+			fmt.Printf("  FINDING %s: %s\n", sig, f.Detail)
+		}
+		if seen[sig] {
+			continue
+		}
+		seen[sig] = true
+		if strings.HasPrefix(f.Kind, "final/") {
+			hn.res.Violate(sig, f.Detail+fmt.Sprintf(" (seen in the second, untraced run of kill member %s K=%d; a race at the end of agent.Run, independent of the kill)", def.Name, mb.K), mb)
+			continue
+		}
+		hn.res.Violate(sig, fmt.Sprintf("DAG %s (%s)%s, %s (phase %s); left behind: %s. %s",
+			def.Name, def.About, map[bool]string{true: " after one completed run", false: ""}[mb.Prior], kd.where, kd.phase, kd.surv, f.Detail), mb)
+	}
+}
+
 // kill executes one member of the kill enumeration.
 func (hn *harness) kill(g *group, mb member, verbose bool) error {
 	res := hn.res
@@ -171,176 +402,38 @@ func (hn *harness) kill(g *group, mb member, verbose bool) error {
 
 	calls := rr.trace.Calls
 	call := calls[mb.K-1]
-	// what the killed run left behind
-	var own *runRecord
-	if runs := in.runsExcept(skip); len(runs) > 1 {
-		return fmt.Errorf("DAG %s K=%d: more than one new run in the history directory: %v", def.Name, mb.K, runs)
-	} else if len(runs) == 1 {
-		own = runs[0]
+	own, surv, m1, err := survey(in, skip)
+	if err != nil {
+		return fmt.Errorf("DAG %s K=%d: %v", def.Name, mb.K, err)
 	}
-	surv := in.stateSummary(skip)
-	m1 := in.takeMarkers()
-	t1 := def.truth(m1)
-	phase := phaseOf(in.lay, calls, own)
-	pos := phase + "/at=" + in.lay.desc(call)
+	kd := &killed{in: in, skip: skip, own: own, surv: surv, m1: m1}
+	kd.phase = phaseOf(in.lay, calls, own)
+	kd.pos = kd.phase + "/at=" + in.lay.desc(call)
+	kd.where = fmt.Sprintf("process killed at the entry of relevant call K=%d [%s]", mb.K, in.lay.short(call))
 	nontrivial := surv != g.before && surv != g.after
 	if nontrivial {
 		res.Nontrivial(vlib.Hash("kill", def.Name, mb.Prior, mb.K))
 	}
 	res.Count("kill_runs:"+def.Name, 1)
-	res.Count("kill_phase:"+phase, 1)
-	var ownLast *model.Status
-	if own != nil {
-		ownLast = own.last()
-	}
-	finalWritten := isFinal(ownLast)
+	res.Count("kill_phase:"+kd.phase, 1)
 
-	var fs []finding
-	add := func(kind, format string, a ...any) {
-		fs = append(fs, finding{kind, fmt.Sprintf(format, a...)})
-	}
-	d, err := dag.LoadMetadata(in.dagFile)
+	// one client for everything that follows, like a daemon that lives on
+	fs, sum, err := hn.postMortem(def, kd, []observer{{"", in.client()}})
 	if err != nil {
-		return fmt.Errorf("cannot load %s: %v", in.dagFile, err)
+		return err
 	}
-	cli := in.client() // one client for everything that follows, like a daemon that lives on
-
-	// 1. what is reported now
-	var st *model.Status
-	var serr error
-	if p := safely("GetLatestStatus", func() { st, serr = cli.GetLatestStatus(d) }); p != "" {
-		add("after-kill/latest-status-error/panic/"+pos, "%s", p)
-	} else if serr != nil {
-		add("after-kill/latest-status-error/"+pos, "GetLatestStatus returns error %q (status object: %s)", serr, describe(st))
-	} else if st == nil {
-		add("after-kill/latest-status-error/"+pos, "GetLatestStatus returns neither a status nor an error")
-	} else {
-		mine := own != nil && strings.HasPrefix(st.RequestID, own.ID8)
-		switch {
-		case st.Status.String() == stRunning:
-			add("after-kill/reported-running/"+pos, "the process is dead, the DAG is reported running: %s", describe(st))
-		case mine && st.Status.String() == stFinished && !(finalWritten && ownLast.Status.String() == stFinished && t1.Complete && t1.Run == stFinished):
-			// steps-missing: part of the DAG never ran; all-steps-done: every step and handler ran to its
-			// end, the kill fell before the agent recorded the end of the run
-			sub := "steps-missing"
-			if t1.Complete && t1.Run == stFinished {
-				sub = "all-steps-done"
-			}
-			add("after-kill/reported-succeeded-but-cut-short/"+sub+"/"+pos, "the killed run is reported as succeeded: %s; final status line (the one written after the scheduler returned, carrying FinishedAt) written: %v; markers {%s} (all steps and handlers ran to their end: %v)", describe(st), finalWritten, m1, t1.Complete)
-		case ownLast != nil && !mine:
-			add("after-kill/killed-run-hidden/"+pos, "the killed run %q had recorded %s, but the status reported is not about it: %s", own.ID8, own, describe(st))
-		case finalWritten && st.Status != ownLast.Status:
-			add("after-kill/final-status-not-reported/"+pos, "the killed run had written its final status line (%s); reported: %s", describe(ownLast), describe(st))
-		}
-		if finalWritten && mine && st.Status == ownLast.Status {
-			// the final line is there and is reported: it must then equal the markers, as after any run
-			for _, f := range checkFinal(def, st, nil, m1, own.ID8) {
-				add(strings.Replace(f.Kind, "final/", "after-kill/final-", 1)+"/"+pos, "%s", f.Detail)
-			}
-		}
-	}
-	// the same through the path the web UI takes
-	var ds *client.DAGStatus
-	if p := safely("GetStatus", func() { ds, _ = cli.GetStatus(def.Name) }); p != "" {
-		add("after-kill/latest-status-error/panic/"+pos, "%s", p)
-	} else if ds != nil && ds.Status != nil && ds.Status.Status.String() == stRunning {
-		add("after-kill/reported-running/"+pos, "client.GetStatus(%q) reports the DAG running: %s", def.Name, describe(ds.Status))
-	}
-
-	// 2. the daemon's job object on what the kill left behind
-	jf, jc1 := jobCheck(in, cli, d, "right after the kill")
-	for _, f := range jf {
-		add(f.Kind+"/"+pos, "%s", f.Detail)
-	}
-
-	// 3. the DAG can be started again
-	skip2 := map[string]bool{}
-	for k := range skip {
-		skip2[k] = true
-	}
-	if own != nil {
-		skip2[own.ID8] = true
-	}
-	var rr2 *runResult
-	var m2 markers
-	hung := false
-	for attempt := 0; attempt < 4; attempt++ {
-		rr2, hung, err = in.runPlain(hn.tl)
-		if err != nil {
-			return err
-		}
-		if hung {
-			continue // once more: only a hang that repeats is reported
-		}
-		m2 = readMarkers(in.markers)
-		if rr2.exit == 2 && strings.Contains(rr2.stderr, "panic:") && def.truth(m2).Complete {
-			// The second run did everything and then crashed at its very end. That has nothing to do
-			// with the kill before it: it is reported as what it is, and the restart is tried again.
-			add("final/agent-crash-at-end-of-run", "an untraced `start -q` of DAG %s ran all its steps (markers {%s}) and then exits 2; stderr: %s", def.Name, m2, vlib.Short(rr2.stderr, 1500))
-			for _, r := range in.runsExcept(skip2) {
-				skip2[r.ID8] = true
-			}
-			_ = in.takeMarkers()
-			continue
-		}
-		break
-	}
-	switch {
-	case hung:
-		add("after-kill/cannot-restart/hang/"+pos, "a second `start -q` of the same file did not end within %s (repeatedly)", watchdog)
-	case rr2.exit != def.expectExit() || !def.truth(m2).Complete:
-		add("after-kill/cannot-restart/"+restartFailure(in, rr2)+"/"+pos, "a second `start -q` of the same file exits %d (a run to completion exits %d); markers of that run {%s}; stderr %s", rr2.exit, def.expectExit(), m2, vlib.Short(rr2.stderr, 400))
-	default:
-		runs := in.runsExcept(skip2)
-		if len(runs) != 1 {
-			add("after-kill/restart-not-recorded/"+pos, "the second run ran to completion but the history directory holds %d new runs: %v", len(runs), runs)
-		} else {
-			var st2 *model.Status
-			var err2 error
-			if p := safely("GetLatestStatus", func() { st2, err2 = cli.GetLatestStatus(d) }); p != "" {
-				add("after-kill/latest-status-error/panic/"+pos, "after the restart: %s", p)
-			} else {
-				for _, f := range checkFinal(def, st2, err2, m2, runs[0].ID8) {
-					add(strings.Replace(f.Kind, "final/", "after-kill/restart-", 1)+"/"+pos, "after the second run (to completion, exit %d): %s", rr2.exit, f.Detail)
-				}
-			}
-		}
-	}
-	// 4. and the daemon keeps handling it
-	jf, jc2 := jobCheck(in, cli, d, "after the restart")
-	for _, f := range jf {
-		add(f.Kind+"/"+pos, "%s", f.Detail)
-	}
-
 	if mb.K%7 == 3 && !mb.Prior {
-		res.Sample(map[string]any{"dag": def.Name, "prior": mb.Prior, "k": mb.K, "killed_at": in.lay.short(call), "position": pos,
-			"left_behind": surv, "differs_from_before_and_after": nontrivial, "reported": describe(st),
-			"job_after_kill": jc1, "restart_exit": rr2.exit, "job_after_restart": jc2})
+		sum["dag"], sum["prior"], sum["k"], sum["killed_at"], sum["position"] = def.Name, mb.Prior, mb.K, in.lay.short(call), kd.pos
+		sum["left_behind"], sum["differs_from_before_and_after"] = surv, nontrivial
+		res.Sample(sum)
 	}
 	if verbose {
-		fmt.Printf("DAG %s (%s) prior=%v K=%d position %s\n  killed at: %s\n  left behind: %s\n  reported: %s err=%v\n  job after kill: %v; restart exit %d markers {%s}; job after restart: %v\n",
-			def.Name, def.About, mb.Prior, mb.K, pos, in.lay.short(call), surv, describe(st), serr, jc1, rr2.exit, m2, jc2)
+		fmt.Printf("DAG %s (%s) prior=%v K=%d position %s\n  killed at: %s\n  left behind: %s\n  %v\n", def.Name, def.About, mb.Prior, mb.K, kd.pos, in.lay.short(call), surv, sum)
 		for _, c := range calls {
 			fmt.Printf("  %3d %-32s %s ret=%d done=%v\n", c.K, in.lay.desc(c), in.lay.short(c), c.Ret, c.Done)
 		}
 	}
-	seen := map[string]bool{}
-	for _, f := range fs {
-		sig := "C08/" + f.Kind
-		if verbose {
-			fmt.Printf("  FINDING %s: %s\n", sig, f.Detail)
-		}
-		if seen[sig] {
-			continue
-		}
-		seen[sig] = true
-		if strings.HasPrefix(f.Kind, "final/") {
-			res.Violate(sig, f.Detail+fmt.Sprintf(" (seen in the second, untraced run of kill member %s K=%d; a race at the end of agent.Run, independent of the kill)", def.Name, mb.K), mb)
-			continue
-		}
-		res.Violate(sig, fmt.Sprintf("DAG %s (%s)%s, process killed at the entry of relevant call K=%d [%s] (phase %s); left behind: %s. %s",
-			def.Name, def.About, map[bool]string{true: " after one completed run", false: ""}[mb.Prior], mb.K, in.lay.short(call), phase, surv, f.Detail), mb)
-	}
+	hn.report(def, mb, kd, fs, verbose)
 	return nil
 }
 
